@@ -90,14 +90,14 @@ FLAVOURS = [
                       "require_group": 0}},                                                # few paths, rewritten over and over
     {"p_attach": 0.38, "attach_deep_datasets": 0.7, "restructure_groups_with_meta": 0.6, "resurrect_annotated": 0.45,
      "p_detach": 0.04, "p_reserved": 0.02,
-     "data_weights": {"copy": 6, "move": 6, "set_dataset": 5, "create_group": 2, "delete": 1.5, "set_attr": 0.5, "del_attr": 0.2}},
+     "data_weights": {"copy": 5, "move": 9, "set_dataset": 5, "create_group": 2, "delete": 1.5, "set_attr": 0.5, "del_attr": 0.2}},
     # metadata on datasets inside groups, then the groups are copied / moved
 ]
 
 
 def jobs(n: int, nops: int, seed: int, **kw) -> List[Dict[str, Any]]:
     return [{"tid": k + 1, "seed": seed * 17 + k, "nops": nops, "stage": 0 if k % 5 == 0 else 1,
-             "concrete": k % 4 in (0, 3), **FLAVOURS[k % len(FLAVOURS)], **kw} for k in range(n)]
+             "concrete": k % 4 in (0, 3), **(FLAVOURS + FLAVOURS[5:])[k % (len(FLAVOURS) + 1)], **kw} for k in range(n)]
 
 
 def run_container(rep: Report, wd: Path, pid: str, js: List[Dict[str, Any]], label: str = "container_histories",
